@@ -23,6 +23,8 @@ def stage_rule(ctx, run, res, rule, rows_atom, cols_atom, entry_fn):
         return False
     ag = _pipe.evs(res, "autograd")
     agg = _pipe.evs(res, "aggregator_call")
+    for _b in _pipe.evs(res, "aggregator_bypass"):
+        ctx.violated("R1", f"{_layout.short_fn(_b)}: aggregator applied through forward()", "the aggregator's forward() is called directly instead of aggregator(matrix): hooks registered on the aggregator (nn.Module.__call__) are skipped, so what is deposited is not aggregator(J)", _b["loc"])
     gw = _pipe.evs(res, "grad_write")
     problems = []
     if not ag:
